@@ -86,6 +86,95 @@ let run_result_s = function
 let script_s (sc : act list) : string =
   String.concat "." (List.map (function AWrite c -> "x" ^ hex_of_bytes c | AFault -> "FAULT") sc)
 
+
+(* ---- type descriptors and values of the show model (C05), in the syntax of
+   harness/cmd/h_render/showzoo.go zdesc / zenc (the one of the show engine):
+     ty    ::= L<kind>.<flags> | A<fl>(ty) | S<fl>(ty) | P<fl>(ty) | M<fl>(ty,ty)
+             | T<fl>(field;...) | R<n>         field ::= <0|1>:<hexname>:<hextag>:ty
+     value ::= n | b0 | b1 | i<int> | u<nat> | f<bits> | c<re>_<im> | s<hex>. | o | z
+             | y<hex>. | q(v,...) | p(v) | m(k:v,...) | t(v,...) | d<id> | I(ty|v)   *)
+let zten = n_of_int 10
+let zn_of_dec (s : string) : n =
+  let acc = ref N0 in
+  String.iter (fun c -> acc := N.add (N.mul !acc zten) (n_of_int (Char.code c - 48))) s;
+  !acc
+type zst = { zs : string; mutable zp : int }
+let zpeek st = if st.zp < String.length st.zs then st.zs.[st.zp] else '\000'
+let znext st = let c = zpeek st in st.zp <- st.zp + 1; c
+let zexpect st c = if znext st <> c then failwith (Printf.sprintf "parse: expected %c at %d in %s" c (st.zp - 1) st.zs)
+let zdigits st =
+  let b = st.zp in
+  while (match zpeek st with '0' .. '9' -> true | _ -> false) do st.zp <- st.zp + 1 done;
+  String.sub st.zs b (st.zp - b)
+let zhexrun st =
+  let b = st.zp in
+  while (match zpeek st with '0' .. '9' | 'a' .. 'f' -> true | _ -> false) do st.zp <- st.zp + 1 done;
+  bytes_of_hex (String.sub st.zs b (st.zp - b))
+let rec zparse_ty st : ty =
+  match znext st with
+  | 'L' -> let k = zn_of_dec (zdigits st) in zexpect st '.'; let fl = zn_of_dec (zdigits st) in TLeaf (k, fl)
+  | 'A' -> let fl = zn_of_dec (zdigits st) in zexpect st '('; let e = zparse_ty st in zexpect st ')'; TArr (fl, e)
+  | 'S' -> let fl = zn_of_dec (zdigits st) in zexpect st '('; let e = zparse_ty st in zexpect st ')'; TSlice (fl, e)
+  | 'P' -> let fl = zn_of_dec (zdigits st) in zexpect st '('; let e = zparse_ty st in zexpect st ')'; TPtr (fl, e)
+  | 'M' -> let fl = zn_of_dec (zdigits st) in zexpect st '('; let k = zparse_ty st in zexpect st ','; let e = zparse_ty st in zexpect st ')'; TMap (fl, k, e)
+  | 'T' ->
+    let fl = zn_of_dec (zdigits st) in
+    zexpect st '(';
+    let fs = ref [] in
+    if zpeek st = ')' then ignore (znext st)
+    else begin
+      let continue = ref true in
+      while !continue do
+        let e = znext st = '1' in
+        zexpect st ':';
+        let name = zhexrun st in
+        zexpect st ':';
+        let tag = zhexrun st in
+        zexpect st ':';
+        let t = zparse_ty st in
+        fs := ({ f_exported = e; f_name = name; f_tag = tag }, t) :: !fs;
+        (match znext st with ';' -> () | ')' -> continue := false | _ -> failwith "parse: struct")
+      done
+    end;
+    TStruct (fl, List.rev !fs)
+  | 'R' -> TRec (nat_of_int (int_of_string (zdigits st)))
+  | c -> failwith (Printf.sprintf "parse: type %c" c)
+let zparse_list st (item : zst -> 'a) : 'a list =
+  zexpect st '(';
+  if zpeek st = ')' then (ignore (znext st); [])
+  else begin
+    let acc = ref [] in
+    let continue = ref true in
+    while !continue do
+      acc := item st :: !acc;
+      (match znext st with ',' -> () | ')' -> continue := false | _ -> failwith "parse: list")
+    done;
+    List.rev !acc
+  end
+let rec zparse_val st : value =
+  match znext st with
+  | 'n' -> VNil
+  | 'b' -> VBool (znext st = '1')
+  | 'i' ->
+    if zpeek st = '-' then (ignore (znext st); VInt (Z.opp (Z.of_N (zn_of_dec (zdigits st)))))
+    else VInt (Z.of_N (zn_of_dec (zdigits st)))
+  | 'u' -> VUint (zn_of_dec (zdigits st))
+  | 'f' -> VFloat (zn_of_dec (zdigits st))
+  | 'c' -> let re = zn_of_dec (zdigits st) in zexpect st '_'; let im = zn_of_dec (zdigits st) in VComplex (re, im)
+  | 's' -> let b = zhexrun st in zexpect st '.'; VStr b
+  | 'o' -> VOpaque
+  | 'z' -> VNilRef
+  | 'y' -> let b = zhexrun st in zexpect st '.'; VBytes b
+  | 'q' -> VSeq (zparse_list st zparse_val)
+  | 'p' -> zexpect st '('; let v = zparse_val st in zexpect st ')'; VPtr v
+  | 'm' -> VMap (zparse_list st (fun st -> let k = zparse_val st in zexpect st ':'; let v = zparse_val st in (k, v)))
+  | 't' -> VStruct (zparse_list st zparse_val)
+  | 'd' -> VTime (zn_of_dec (zdigits st))
+  | 'I' -> zexpect st '('; let d = zparse_ty st in zexpect st '|'; let v = zparse_val st in zexpect st ')'; VIface (d, v)
+  | c -> failwith (Printf.sprintf "parse: value %c" c)
+let zty_of_string s = let st = { zs = s; zp = 0 } in let t = zparse_ty st in if st.zp <> String.length s then failwith "parse: trailing"; t
+let zval_of_string s = let st = { zs = s; zp = 0 } in let v = zparse_val st in if st.zp <> String.length s then failwith "parse: trailing"; v
+
 let handle (f : string list) : string =
   match f with
   | ["rend"; fail_at; ops] ->
@@ -124,6 +213,9 @@ let handle (f : string list) : string =
      | RRNil -> "nil" | RRPanicError -> "panic" | RROutError _ -> "out" | RRCtx -> "ctx" | RRStop _ -> "stop"
      | RRError _ -> "error" | RRHostPanicFatal false -> "fatal:passed" | RRHostPanicFatal true -> "fatal:wrapped"
      | RRHostPanicGo -> "gopanic" | RRStuck -> "stuck")
+  | ["show"; ctx; url; conv; ty; v] ->
+    (match int_of_n (show_class (conv = "1") (zn_of_dec ctx) (url = "1") (zty_of_string ty) (zval_of_string v)) with
+     | 0 -> "ok" | 1 -> "cannotshow" | 2 -> "panic" | 3 -> "stuck" | _ -> "illtyped")
   | ["pathEscape"; q; h] -> script_s (pathEscape (b01 q) (bytes_of_hex h))
   | ["queryEscape"; h] -> script_s (queryEscape (bytes_of_hex h))
   | ["pe_q"; h] -> "ok:" ^ hex_of_bytes (path_escape_quoted_bytes (bytes_of_hex h))
